@@ -135,8 +135,32 @@ pub fn totality_scale(fs: &[&str]) -> String {
         .join("|")
 }
 
+/// fields = [hex seed text; repetitions r; stack size in KiB]: every entry on seed^r, each in a
+/// thread of its own with a SMALL stack. Stack use that grows with the input (recursion per
+/// token, per alternative, per line) overflows it: the process aborts and the supervisor
+/// records ABORT. Code whose stack use is bounded is not affected by the size of the input.
+pub fn totality_stack(fs: &[&str]) -> String {
+    let seed = unhex(fs[0]);
+    let r: usize = fs[1].parse().unwrap();
+    let kib: usize = fs[2].parse().unwrap();
+    let input = std::sync::Arc::new(seed.repeat(r));
+    entries()
+        .into_iter()
+        .map(|(n, f)| {
+            let inp = input.clone();
+            let h = std::thread::Builder::new()
+                .stack_size(kib * 1024)
+                .spawn(move || run_entry(f, &inp))
+                .unwrap();
+            format!("{}={}", n, h.join().unwrap_or("PANIC"))
+        })
+        .collect::<Vec<_>>()
+        .join("|")
+}
+
 pub fn streams() -> Vec<(&'static str, crate::StreamFn)> {
     vec![
+        ("totality-stack", totality_stack as crate::StreamFn),
         ("totality", totality as crate::StreamFn),
         ("totality-scale", totality_scale as crate::StreamFn),
     ]
